@@ -1090,3 +1090,34 @@ package scipipe
 //@   loop 0 invariant earlier-kept: forall r string, j int :: r in pt.RemotePorts && 0 <= j && j < old(chanSentN(pt.RemotePorts[r].Chan)) ==> chanSentAt(pt.RemotePorts[r].Chan, j) == old(chanSentAt(pt.RemotePorts[r].Chan, j))
 //@   loop 0 invariant others: forall c chan *FileIP :: !fresh(c) && !isRemoteChan(pt, c) ==> chanSentN(c) == old(chanSentN(c))
 //@   loop 0 invariant log-untouched: outN == old(outN) && outAt == old(outAt)
+
+//@ func (*InPort).CloseConnection(pt, rptName)
+//@   props C04 C05
+//@   modifies pt.RemotePorts[*], chan(pt.Chan), locked, closeCalls
+//@   ghost set closeCalls = update(closeCalls, pt, closeCalls[pt] + 1)
+//@   ensures removed: !(rptName in pt.RemotePorts)
+//@   ensures others: forall k string :: k != rptName ==> ((k in pt.RemotePorts) <==> old(k in pt.RemotePorts)) && pt.RemotePorts[k] == old(pt.RemotePorts[k])
+//@   ensures channel-closed-iff-last-upstream[C04,C05]: chanClosed(pt.Chan) <==> (old(chanClosed(pt.Chan)) || len(pt.RemotePorts) == 0)
+//@   ensures nothing-sent: chanSentN(pt.Chan) == old(chanSentN(pt.Chan))
+//@   ensures counted: closeCalls == update(old(closeCalls), pt, old(closeCalls)[pt] + 1)
+//@   ensures lock-released: !locked[pt.closeLock]
+//@   atcall builtin.close under-lock-and-empty[C04]: locked[pt.closeLock] && len(pt.RemotePorts) == 0 && $arg0 == pt.Chan
+
+//@ define wfPortKeys(pt *OutPort) bool = forall r string :: r in pt.RemotePorts ==> pt.RemotePorts[r] != nil && r == procName(pt.RemotePorts[r].process) + "." + pt.RemotePorts[r].name && pt.RemotePorts[r].process != nil
+
+//@ func (*OutPort).Close(pt)
+//@   props C04 C05
+//@   requires wf: wfOutPort(pt) && wfPortKeys(pt) && pt.process != nil
+//@   requires in-ports-distinct-maps: forall r string :: r in pt.RemotePorts ==> pt.RemotePorts[r].RemotePorts != nil
+//@   modifies pt.RemotePorts[*], map[string]*OutPort, chan, locked, closeCalls
+//@   ensures all-disconnected: forall r string :: !(r in pt.RemotePorts)
+//@   ensures each-remote-notified-once[C04,C05]: forall r string :: old(r in pt.RemotePorts) ==> closeCalls[old(pt.RemotePorts[r])] == old(closeCalls)[old(pt.RemotePorts[r])] + 1
+//@   ensures removed-from-remote[C04]: forall r string :: old(r in pt.RemotePorts) ==> !((procName(pt.process) + "." + pt.name) in old(pt.RemotePorts[r]).RemotePorts)
+//@   ensures nothing-sent: forall c chan *FileIP :: !fresh(c) ==> chanSentN(c) == old(chanSentN(c))
+//@   loop 0 invariant vis: forall r string :: $visited[r] ==> old(r in pt.RemotePorts)
+//@   loop 0 invariant gone: forall r string :: $visited[r] ==> !(r in pt.RemotePorts)
+//@   loop 0 invariant kept: forall r string :: !$visited[r] ==> ((r in pt.RemotePorts) <==> old(r in pt.RemotePorts)) && pt.RemotePorts[r] == old(pt.RemotePorts[r])
+//@   loop 0 invariant notified: forall r string :: $visited[r] ==> closeCalls[old(pt.RemotePorts[r])] == old(closeCalls)[old(pt.RemotePorts[r])] + 1
+//@   loop 0 invariant not-yet: forall q *InPort :: !(exists r string :: $visited[r] && old(pt.RemotePorts[r]) == q) ==> closeCalls[q] == old(closeCalls)[q]
+//@   loop 0 invariant removed-from-remote: forall r string :: $visited[r] ==> !((procName(pt.process) + "." + pt.name) in old(pt.RemotePorts[r]).RemotePorts)
+//@   loop 0 invariant nothing-sent: forall c chan *FileIP :: !fresh(c) ==> chanSentN(c) == old(chanSentN(c))
